@@ -1,5 +1,6 @@
 import GridVerif.Props.C11
 import GridVerif.Props.C11.Gen
+import GridVerif.Props.C11.Warn
 
 #print axioms GridVerif.C11.ilc_in_box
 #print axioms GridVerif.C11.periodic_complete
@@ -37,3 +38,11 @@ import GridVerif.Props.C11.Gen
 #print axioms GridVerif.C11.gen_getLocalgrid_spec
 #print axioms GridVerif.C11.gen_periodic_localgrid_correct
 #print axioms GridVerif.C11.gen_periodic_getitem_spec
+#print axioms GridVerif.C11.gen_init_warning_site
+#print axioms GridVerif.C11.gen_init_warning_total
+#print axioms GridVerif.C11.gen_init_warning_eq
+#print axioms GridVerif.C11.gen_init_warning_iff
+#print axioms GridVerif.C11.construct_intervals_attained
+#print axioms GridVerif.C11.gen_init_warning_spec
+#print axioms GridVerif.C11.gen_wrap_never_warns
+#print axioms GridVerif.C11.gen_nowarn_range_small
